@@ -86,10 +86,6 @@ theorem cost_convex_scalar (D R floss : ℝ) (hD : 0 ≤ D) (hDR : D * R = 1) (h
 section elliptic
 variable {n : ℕ} (D0 mu : ℝ) (D w : Fin n → ℝ)
 
-/-- cost of an elliptic block as the code accumulates it -/
-noncomputable def ellCost (jar0 : ℝ) (jar : Fin n → ℝ) : ℝ :=
-  ((ellBlock D0 jar0 mu (tsOf D w jar)).terms).sum
-
 /-- the model evaluates, according to its zone test, one of the three formulas `costZ`, `forceNZ`,
     `forceTZ` (top: zero; bottom: full quadratic; middle: squared distance to the cone) -/
 theorem ellBlock_eq_zone_formulas (jar0 : ℝ) (jar : Fin n → ℝ) :
